@@ -103,12 +103,24 @@ func c02Extra(c *Ctx, r *Report) {
 			conn = p
 		}
 	}
-	isConn := func(v ssa.Value) bool {
+	isConnExchange := func(v ssa.Value) bool {
 		if conn == nil {
 			return false
 		}
-		return dependsOn(v, func(x ssa.Value) bool { return sameSlotValue(x, conn) }) && !isStringLike(v.Type())
+		return dependsOn(v, func(x ssa.Value) bool {
+			if sameSlotValue(x, conn) {
+				return true
+			}
+			// the captured variable, as a function literal of Exchange sees it
+			ld, ok := x.(*ssa.UnOp)
+			if !ok {
+				return false
+			}
+			fv, ok := ld.X.(*ssa.FreeVar)
+			return ok && fv.Name() == conn.Name()
+		}) && !isStringLike(v.Type())
 	}
+	isConn := isConnExchange
 	var cleanups []*ssa.Function
 	eachInstr(fn, func(_ *ssa.BasicBlock, _ int, in ssa.Instruction) {
 		if d, ok := in.(*ssa.Defer); ok {
@@ -147,6 +159,24 @@ func c02Extra(c *Ctx, r *Report) {
 	for _, f := range cleanups {
 		visit(f, 0)
 	}
+	// ip_h1r5.go: same-package functions deferred directly or called by the deferred literals, with the
+	// connection bound to the parameters it is passed for
+	for _, hc := range c.h1CleanupFuncs(fn, isConnExchange) {
+		hc := hc
+		isConn = func(v ssa.Value) bool {
+			return dependsOn(v, func(x ssa.Value) bool {
+				for j := range hc.connParams {
+					if j < len(hc.fn.Params) && h1IsParamValue(x, hc.fn.Params[j]) {
+						return true
+					}
+				}
+				return false
+			}) && !isStringLike(v.Type())
+		}
+		cleanups = append(cleanups, hc.fn)
+		visit(hc.fn, 0)
+	}
+	isConn = isConnExchange
 	r.Check("C02-cleanup", fnName(fn), "deferred clean-up", c.pos(fn.Pos()), bad == "" && len(cleanups) > 0,
 		"echoes the error under a write deadline and closes; never reads", "the deferred clean-up reads from the connection ("+bad+"): when both stations fail (the receiver's error echo is itself a protocol error for the sender) each waits for the other to hang up - Exchange never returns on transports without deadlines, and stalls for the deadline elsewhere")
 }
